@@ -177,4 +177,44 @@ def lookupExtra (extra vars : List (Name × Str)) (x : Name) : Option Str :=
 def loopRender (lv : Name) (vars : List (Name × Str)) (items : List Str) (refs : List Name) : List (List (Option Str)) :=
   items.map (fun it => refs.map (lookupExtra [(lv, it)] vars))
 
+/-! ### `env:` entries given by `sh:`
+
+Global (`Taskfile.env`) entries are first evaluated by `Compiler.getVariables`, in order, each
+`sh:` entry seeing the process environment and the global entries BEFORE it; the result is
+cached by command text.  `compiledTask` then walks the merged env (global entries, then the
+task's) in order: a global `sh:` entry gets its cached value; a task-level `sh:` entry sees the
+process environment plus every entry that is static AT THAT MOMENT — all global entries,
+task literals wherever they stand, task `sh:` entries already evaluated.  The process
+environment wins for names it has (precedence experiment off). -/
+
+inductive EDef
+  | lit (v : Str)          -- `NAME: text`
+  | read (x : Name)        -- `NAME: {sh: "printf '%s' \"$x\" # NAME"}`: what `$x` holds (the comment keeps the command text unique)
+deriving Repr, DecidableEq
+
+/-- what `$x` holds for an `sh:` env entry -/
+def readEnv (os static : List (Name × Str)) (x : Name) : Str :=
+  match os.lookup x with
+  | some v => v
+  | none => (static.lookup x).getD []
+
+/-- sequential pass: every entry (literal or read) becomes visible only after it was walked -/
+def envSeq (os : List (Name × Str)) : List (Name × EDef) → List (Name × Str) → List (Name × Str)
+  | [], st => st
+  | (k, .lit v) :: r, st => envSeq os r (st ++ [(k, v)])
+  | (k, .read x) :: r, st => envSeq os r (st ++ [(k, readEnv os st x)])
+
+/-- task-level pass: literals are visible from the start, reads as they are evaluated -/
+def envChainGo (os : List (Name × Str)) : List (Name × EDef) → List (Name × Str) → List (Name × Str)
+  | [], st => st
+  | (_, .lit _) :: r, st => envChainGo os r st
+  | (k, .read x) :: r, st => envChainGo os r (st ++ [(k, readEnv os st x)])
+
+def litsOf (es : List (Name × EDef)) : List (Name × Str) :=
+  es.filterMap (fun e => match e.2 with | .lit v => some (e.1, v) | .read _ => none)
+
+/-- the values of all entries (names are distinct): `g` global entries, `t` the task's -/
+def envChain (os : List (Name × Str)) (g t : List (Name × EDef)) : List (Name × Str) :=
+  envChainGo os t (envSeq os g [] ++ litsOf t)
+
 end TaskModel.Vars
